@@ -205,6 +205,35 @@ class NcchCheck(Check):
                 self.reparse(rd, desc, info, img, eng, e, mon)
                 if mon and key is None:
                     key = 'ncch.full.reparse'
+            # a container whose file ends early (a partial download, a dump cut off): the view ends where the file ends, and every
+            # piece-wise read is still the slice of the whole read - also when the cut is not on a 0x200 boundary
+            if self.full and case['seed'] % 3 == 2 and not mon and not assume:
+                cut = Rng(case['seed'] + 11).pick([1, 2, 0x1FF, 0x200, 0x201, 0x333])
+                if cut + 0x200 < len(img):
+                    info_d['truncated file'] = 1
+                    spec = ncchbuild.decrypted_image(img, info, desc) if not desc['no_crypto'] else img
+                    try:
+                        tb = io.BytesIO(b'\xEE' * start + img[:len(img) - cut])
+                        tb.seek(start)
+                        rt = NCCHReader(tb, crypto=e.CryptoEngine(), seed=seed_arg, closefd=False, load_sections=False)
+                        ft = rt.open_raw_section(NCCHSection.FullDecrypted)
+                        whole = ft.read()
+                        if whole != spec[:len(img) - cut]:
+                            mon.append(f'file cut {cut} bytes short: the whole read has {len(whole)} bytes / differs from the decrypted '
+                                       f'image as far as the file goes ({len(img) - cut} bytes)')
+                            key = 'ncch.full.truncated'
+                        r11 = Rng(case['seed'] + 12)
+                        for _ in range(12):
+                            off = max(0, len(whole) - r11.randint(0, 0x420))
+                            n = r11.pick([1, 2, 5, 0x1FF, 0x200, 0x201, 0x400])
+                            ft.seek(off)
+                            if ft.read(n) != whole[off:off + n] and not mon:
+                                mon.append(f'file cut {cut} bytes short: read({n}) at {off} is not the slice of the whole read')
+                                key = 'ncch.full.truncated'
+                        rt.close()
+                    except Exception as ex_:  # noqa
+                        mon.append(f'file cut {cut} bytes short: {exc_name(ex_)}')
+                        key = 'ncch.full.truncated'
             # the same container through a reader created with load_sections=False (no nested ExeFS / RomFS readers are built, so
             # whatever the section views need has to be set up when they are first used): same bytes, in any order of first use
             if case['seed'] % 3 == 1 and not mon:
